@@ -141,7 +141,9 @@ class ComplexType(BaseType):
         )
 
     def _to_hash_string(self) -> str:
-        return type(self).__name__ + "/" + ",".join(map(get_hash_string, self.types))
+        # Members are enclosed in brackets: plain concatenation gave Union[List[Union[a, b]], c] and Union[List[Union[a, b, c]]]
+        # the same string
+        return type(self).__name__ + "[" + ",".join(map(get_hash_string, self.types)) + "]"
 
 
 class DOptional(SingleType):
